@@ -77,8 +77,9 @@ class C03(Property):
                          "frameEdit_background", "FrameEdit.trans"]
     partial_theorems = {
         "edit_survives_editor / _difficulty / _events / _general / _records (and the matching edit_frame_*)":
-            "law-dependent: proved for every number codec satisfying CodecLaws (+ IntPrintLaw for AudioLeadIn), shown satisfiable by Lemmas/ToyCodec.lean; not proved of Rust's "
-            "Display/FromStr. edit_survives_metadata / edit_frame_metadata (ten fields, any text that is its own trim without line feed — colons, `//`, brackets, header- and "
+            "law-dependent: proved for every number codec satisfying CodecLaws (+ IntPrintLaw for AudioLeadIn), shown satisfiable by Lemmas/ToyCodec.lean; CodecLaws is now also a theorem "
+            "for the model's IEEE codec (C02: parseBits_printBits_f64/_f32, printBits_clean, codecLaws_float(32) under the bit-cast hypothesis FloatBitsLaw about Lean's opaque Float); IntPrintLaw "
+            "likewise (C02: printBits_intBits_f64, intPrintLaw_float under FloatOfIntLaw). Not proved: that Rust's Display/FromStr equal the model codec (tested by lib/codecgen.py). edit_survives_metadata / edit_frame_metadata (ten fields, any text that is its own trim without line feed — colons, `//`, brackets, header- and "
             "version-like text, the empty text; positive ids) and the colours theorems need no law",
         "edit_survives_* / edit_frame_* are section level": "an edit replaces a section record by a representable record; the block the encoder writes for it reads back as exactly that record, and "
             "any observation the edit did not change reads as for the unedited record. edit_survives_records lifts this to the file (encode, bytes, reader, framing, Beatmap decoder) "
@@ -103,7 +104,7 @@ class C03(Property):
     }
     level_text = ("Lean 4 theorems: for each of the six record sections, editing the section record to any representable value and round-tripping the encoded block gives exactly the "
                   "edited record, and leaves every observation the edit did not touch as it was (metadata also field by field: ten fields, one edited, nine unchanged); lifted to the file "
-                  "for the record fields (edit_survives_records). Sections with floats are proved for every lawful number codec. The frame clause for hit objects and timing points is a theorem too "
+                  "for the record fields (edit_survives_records). Sections with floats are proved for every lawful number codec (the model's IEEE codec is proved lawful at the bit level, C02). The frame clause for hit objects and timing points is a theorem too "
                   "(edit_frame_objects: an edit that leaves mode, slider multiplier, tick rate, breaks, format version, control points and hit objects alone yields the same re-decoded hit "
                   "objects and control points), under the codec laws and the assumption that the unedited map's two list blocks are LF-free record lines (the open part of C04); the list "
                   "blocks are shown to be functions of exactly the fields named, and the decoder's object / control-point state to depend on the record blocks only through mode, default "
@@ -114,6 +115,7 @@ class C03(Property):
     trusted_base = [
         "Lean 4.33.0 kernel; axioms ⊆ {propext, Classical.choice, Quot.sound} per #print axioms",
         "hand-written decode + encode models tied to /repo by the `edit` differential of this run",
+        "number codec: CodecLaws proved for the model's printBits/parseBits (C02, Props/C02Codec.lean) up to the runtime hypotheses FloatBitsLaw / FloatOfIntLaw; agreement with Rust's Display/FromStr tested, not proved",
     ]
     assumptions = ["edits are restricted to values the format can represent (DESIGN 5.3): trimmed single-line text; file names without `//`, quotes or backslashes and, for the "
                    "background, without commas; numbers within the parse limits and inside the field's clamp; ids and countdown offset positive; colours with alpha 255"]
